@@ -5,7 +5,7 @@ from concurrent.futures import ThreadPoolExecutor
 import vlib
 from vlib import log
 
-DELIVERY = {"data-after-end", "not-contiguous-or-altered", "saved-not-contiguous-or-altered", "skip-unknown-on-started-stream",
+DELIVERY = {"not-contiguous-or-altered", "saved-not-contiguous-or-altered", "skip-unknown-on-started-stream",
             "skip-known-on-unstarted-stream", "duplicate-or-reordered", "wrong-skip", "gap-released-without-flush-or-limit",
             "arrived-bytes-skipped", "invented-bytes", "wrong-saved-bytes", "kept-bytes-not-presented", "end-without-fin",
             "arrived-bytes-never-delivered", "panic", "hang", "unknown-event"}
@@ -56,7 +56,7 @@ def run_asm(ctx, drivers, wd, nrand):
 
     def work(job):
         d, part, tp, args = job
-        p = vlib.run(args, timeout=3000)
+        p = vlib.run(args, timeout=3000, ok_codes=(0, 3))   # 3 = the driver's watchdog recorded a hang event
         st = json.loads(p.stdout.strip().splitlines()[-1])
         v = vlib.validate_trace("ReasmTrace", tp, os.path.basename(tp), heap="6g", timeout=3000)
         out = []
